@@ -221,5 +221,13 @@ class ChargingStation(VehicleState):
         :param self.vehicle_id: the vehicle transitioning
         :return: an exception due to failure or an optional updated simulation
         """
+        vehicle = sim.vehicles.get(self.vehicle_id)
+        mechatronics = env.mechatronics.get(vehicle.mechatronics_id) if vehicle else None
+        if vehicle is not None and mechatronics is not None and mechatronics.is_full(vehicle):
+            # a vehicle that plugs in already full (it arrived full, or left the queue full) has
+            # nothing to charge. charge() refuses full vehicles with an error, which would undo
+            # the arrival as well and leave the vehicle travelling on an exhausted route forever;
+            # the terminal condition releases the plug on the next step instead.
+            return None, sim
 
         return charge(sim, env, self.vehicle_id, self.station_id, self.charger_id)
